@@ -329,6 +329,92 @@ def width_rule(rep, fn, digit_bits):
     return n
 
 
+def _cond_norm(fn, obj, v):
+    """v is `test ? 1 : 0` (either arm order) where the test is about the value stored into num[0]: 0 exactly when that value is 0"""
+    v = v.get("lz") if v.get("k") == "lazy" and v.get("lz") is not None else v
+    if v.get("k") != "cond":
+        return False
+    top = None
+    for p2, r2, y, _ in fn.nodes():
+        if y.get("k") == "bin" and y["op"] == "=":
+            t = core.strip_casts(y["x"])
+            if t.get("k") == "sub" and const_val(t["i"]) == 0 and key(core.strip_casts(t["b"])) == "%s->num" % obj["n"]:
+                top = core.strip_casts(y["y"])
+    if top is None or top.get("k") != "ref":
+        return False
+    atoms = [n for n, _ in walk(v["c"]) if n.get("k") == "ref" and n.get("id") == top.get("id")]
+    if not atoms:
+        return False
+    try:
+        res = {val: r_mpt.eval_expr(v, {id(a): val for a in atoms}) for val in (0, 1, 2, 255, (1 << 64) - 1)}
+    except r_mpt.Unknown:
+        return False
+    return res[0] == 0 and all(res[k] == 1 for k in res if k)
+
+
+def norm_rule(rep, fn):
+    """R-NORM: `digits` is the exact number of significant digits - bn_is_zero, bn_cmp and bn_calc_bits read it as such and
+    every arithmetic routine re-derives it with bn_digits_calc_digits.  A store to X->digits through a bn_p parameter is
+    therefore one of: 0; the result of bn_digits_calc_digits; the digits of another number (a copy); a value v under a
+    dominating test that X->num[v - 1] is not zero; or a constant c with X->num[c - 1] assigned a value that a dominating
+    test excludes from zero."""
+    n = 0
+    for pos, root, x, ps in fn.nodes():
+        if not (x.get("k") == "bin" and x["op"] == "="):
+            continue
+        l = core.strip_casts(x["x"])
+        if not (l.get("k") == "mem" and l.get("f") == "digits" and l.get("arrow")):
+            continue
+        obj = core.strip_casts(l["b"])
+        if not (obj.get("k") == "ref" and obj.get("dk") == "parm"):
+            continue
+        n += 1
+        v = core.strip_casts(x["y"])
+        inst = "digits-store#%d" % n
+        desc = "%s: the value stored in %s->digits is the exact significant-digit count" % (fn.name, obj["n"])
+        cv = const_val(v)
+        if cv == 0:
+            rep.proved("R-NORM", fn, inst, desc, "zero", x.get("ln"))
+        elif v.get("k") == "call" and v.get("fn") == "bn_digits_calc_digits":
+            rep.proved("R-NORM", fn, inst, desc, "bn_digits_calc_digits", x.get("ln"))
+        elif v.get("k") == "mem" and v.get("f") == "digits":
+            rep.proved("R-NORM", fn, inst, desc, "copied with the digits of %s" % key(core.strip_casts(v["b"])), x.get("ln"))
+        elif v.get("k") in ("cond", "lazy") and _cond_norm(fn, obj, v):
+            rep.proved("R-NORM", fn, inst, desc, "1 or 0 according to a test of the digit stored at num[0]", x.get("ln"))
+        elif cv is not None:
+            # the digit stored at num[c - 1]
+            top = None
+            for p2, r2, y, _ in fn.nodes():
+                if y.get("k") == "bin" and y["op"] == "=":
+                    t = core.strip_casts(y["x"])
+                    if t.get("k") == "sub" and const_val(t["i"]) == cv - 1 and key(core.strip_casts(t["b"])) == "%s->num" % obj["n"]:
+                        top = (p2, core.strip_casts(y["y"]))
+            if top is None:
+                rep.undecided("R-NORM", fn, inst, desc, "constant %d stored, top digit not assigned here" % cv, x.get("ln"))
+                continue
+            ok, why = r_range.excludes_zero(fn, top[0], top[1]) if top[1].get("k") in ("ref", "mem") else (const_val(top[1]) not in (None, 0), "constant")
+            if ok:
+                rep.proved("R-NORM", fn, inst, desc, "num[%d] = %s, %s" % (cv - 1, key(top[1]), why), x.get("ln"))
+            else:
+                rep.violated("R-NORM", fn, inst, desc, "digits = %d although num[%d] = %s may be zero: the number then has the value 0 but "
+                             "bn_is_zero() says no and bn_cmp() with a normalised zero is non-zero" % (cv, cv - 1, key(top[1])), x.get("ln"))
+        else:
+            # v under a dominating test of num[v - 1] != 0
+            want = None
+            ok = False
+            for bid, c, atom in r_range.guards_for(fn, pos, key(v)):
+                for y, _ in walk(c):
+                    if y.get("k") == "sub" and key(v) in key(y["i"]) and key(core.strip_casts(y["b"])) == "%s->num" % obj["n"]:
+                        s1, k1 = r_mpt.edge_for_value(fn, bid, c, y, 0)
+                        if k1 and (s1 is None or pos[0] not in fn.reach_from([s1], avoid=[bid])):
+                            ok = True
+            if ok:
+                rep.proved("R-NORM", fn, inst, desc, "under a test that the top digit is not zero", x.get("ln"))
+            else:
+                rep.undecided("R-NORM", fn, inst, desc, "stored value %s not recognised as normalised" % key(v), x.get("ln"))
+    return n
+
+
 def run(rep, tier):
     cs = configs(tier)
     specs = [common.hdr_unit(l, "math/big_num.h", d, ("-Werror=implicit-function-declaration",)) for (l, d, w) in cs]
@@ -342,7 +428,7 @@ def run(rep, tier):
     us = driver.load_units(specs)
     rep.use_units(us)
     first = True
-    n_err = n_ts = n_div = n_sh = n_carry = n_dim = n_fresh = 0
+    n_err = n_ts = n_div = n_sh = n_carry = n_dim = n_fresh = n_norm = 0
     for (l, d, w) in cs:
         u = us[l]
         S, _ = r_err.status_functions(u)
@@ -359,6 +445,9 @@ def run(rep, tier):
             wide_shift_rule(rep, fn)
             memsafe.tail_fill_rule(rep, fn)
             memsafe.unguarded_write_rule(rep, fn)
+            nn_ = norm_rule(rep, fn)
+            if first:
+                n_norm += nn_
             nf_ = r_loopvar.check(rep, [fn])
             if first:
                 n_fresh += nf_
@@ -380,6 +469,7 @@ def run(rep, tier):
     rep.floor("carry/borrow stores", n_carry, 5)
     rep.floor("bit/byte dimensioned expressions", n_dim, 20)
     rep.floor("per-iteration temporaries read in loops", n_fresh, 3)
+    rep.floor("stores to ->digits", n_norm, 8)
     rep.floor("pure-result three-operand routines", alias_rule(rep, us[cs[0][0]]), 2)
     return driver.finish(
         rep, "other",
